@@ -1,5 +1,5 @@
 """Re-run the registered check of every stored seed (seeded/<id>-s<k>/patch.diff) on a scratch copy of /repo
-with the patch applied (VERIF_REPO); reports seeds that are no longer caught.  usage: reseed.py [jobs]"""
+with the patch applied (VERIF_REPO); reports seeds that are no longer caught.  usage: reseed.py [jobs [name-prefix ...]]"""
 import json
 import os
 import shutil
@@ -32,6 +32,8 @@ def one(name):
 def main():
     jobs = int(sys.argv[1]) if len(sys.argv) > 1 else 4
     names = sorted(os.listdir(os.path.join(VERIF, 'seeded')))
+    if len(sys.argv) > 2:      # reseed.py <jobs> <prefix> ... : only the seeds whose name starts with one of the prefixes
+        names = [n for n in names if any(n.startswith(p) for p in sys.argv[2:])]
     bad = 0
     with ThreadPoolExecutor(jobs) as ex:
         for name, caught, info in ex.map(one, names):
